@@ -42,12 +42,76 @@ func TestMain(m *testing.M) {
 // of the text, before and after every '(' ')' ',' in order, the end of the text.
 // Nothing is ever inserted inside a number, inside a keyword, between a keyword
 // and EMPTY, or between the two numbers of a coordinate.
+//
+// Two further case shapes share the type: Nest (TestEnumDepth) describes a leaf
+// wrapped in Depth collection levels instead of spelling the geometry out, and
+// Seq (TestPropRetained) is a sequence of geometries whose marshalled bytes and
+// parsed values are retained across the later calls.
 type Case struct {
-	G         gen.G `json:"g"`
-	Flips     []int `json:"flips,omitempty"`
-	FlipFill  int   `json:"flip_fill,omitempty"`
-	Spaces    []int `json:"spaces,omitempty"`
-	SpaceFill int   `json:"space_fill,omitempty"`
+	G         gen.G   `json:"g"`
+	Flips     []int   `json:"flips,omitempty"`
+	FlipFill  int     `json:"flip_fill,omitempty"`
+	Spaces    []int   `json:"spaces,omitempty"`
+	SpaceFill int     `json:"space_fill,omitempty"`
+	Nest      *Nest   `json:"nest,omitempty"`
+	Seq       []gen.G `json:"seq,omitempty"`
+	Order     []int   `json:"order,omitempty"` // Seq only: order of the churn calls made after everything was retained
+}
+
+// Nest is a leaf geometry inside Depth nested collections.
+type Nest struct {
+	Depth   int    `json:"depth"`
+	Leaf    string `json:"leaf"`
+	Sibling string `json:"sibling"` // none | empty-before | alternating
+}
+
+var nestLeaves = []string{"Point", "LineString", "PolygonWithHole", "MultiPoint", "MultiLineString", "MultiPolygon", "Empty", "TwoMemberCollection"}
+var nestSiblings = []string{"none", "empty-before", "alternating"}
+
+func nestLeaf(name string) orb.Geometry {
+	switch name {
+	case "Point":
+		return orb.Point{1e-7, -2.5e21}
+	case "LineString":
+		return orb.LineString{{1, 2}, {3e6, -4}}
+	case "PolygonWithHole":
+		return orb.Polygon{ring4, ring3}
+	case "MultiPoint":
+		return orb.MultiPoint{{1, 2}, {3, 4e-9}}
+	case "MultiLineString":
+		return orb.MultiLineString{{{1, 2}, {3, 4}}, {{5, 6}}}
+	case "MultiPolygon":
+		return orb.MultiPolygon{{ring4, ring3}, {ring3}}
+	case "Empty":
+		return orb.MultiPolygon{}
+	case "TwoMemberCollection":
+		return orb.Collection{orb.Point{1, 2}, orb.MultiPoint{}}
+	}
+	return nil
+}
+
+// build returns the nested geometry: level i (1 = innermost) wraps the value in
+// one more collection; "empty-before" puts LINESTRING EMPTY in front of it at
+// every level, "alternating" puts a point behind it at odd levels and an empty
+// polygon in front of it at even levels.
+func (n Nest) build() orb.Geometry {
+	g := nestLeaf(n.Leaf)
+	if g == nil || n.Depth < 0 || n.Depth > 100000 {
+		return nil
+	}
+	for i := 1; i <= n.Depth; i++ {
+		switch {
+		case n.Sibling == "empty-before":
+			g = orb.Collection{orb.LineString{}, g}
+		case n.Sibling == "alternating" && i%2 == 1:
+			g = orb.Collection{g, orb.Point{float64(i), 1e-5}}
+		case n.Sibling == "alternating":
+			g = orb.Collection{orb.Polygon{}, g}
+		default:
+			g = orb.Collection{g}
+		}
+	}
+	return g
 }
 
 func isLetter(ch byte) bool { return ('A' <= ch && ch <= 'Z') || ('a' <= ch && ch <= 'z') }
@@ -386,10 +450,125 @@ func checkGeom(g orb.Geometry, flips []int, flipFill int, spaces []int, spaceFil
 }
 
 func checkCase(c Case) error {
+	if len(c.Seq) > 0 {
+		return checkSeq(c)
+	}
+	if c.Nest != nil {
+		g := c.Nest.build()
+		if g == nil {
+			return nil
+		}
+		return checkGeom(g, c.Flips, c.FlipFill, c.Spaces, c.SpaceFill)
+	}
 	if err := inDomain(c.G.V); err != nil {
 		return nil // outside the quantifier: nothing is claimed
 	}
 	return checkGeom(c.G.V, c.Flips, c.FlipFill, c.Spaces, c.SpaceFill)
+}
+
+// scribble overwrites every coordinate slot reachable through slices of g.
+func scribble(g orb.Geometry) {
+	gen.Walk(g, func(p *float64) { *p = -12345.6789 })
+}
+
+// checkSeq: the values orb returns must be the caller's own. The []byte of
+// Marshal is retained WITHOUT copying and the geometries of Unmarshal and of
+// the typed parse functions are retained as returned, for every geometry of the
+// sequence; after all calls, and after a second round of churn calls in the
+// order c.Order, every retained value must still be what it was when returned.
+// Then the caller overwrites everything it retained, and fresh calls must still
+// give the right answers (a cache or pool handing out shared memory fails one
+// of the two directions).
+func checkSeq(c Case) error {
+	n := len(c.Seq)
+	gs := make([]orb.Geometry, n)
+	want := make([]orb.Geometry, n)
+	for i := range c.Seq {
+		if err := inDomain(c.Seq[i].V); err != nil {
+			return nil
+		}
+		gs[i] = gen.DeepCopy(c.Seq[i].V)
+		want[i] = canonical(gen.DeepCopy(c.Seq[i].V))
+	}
+	kept := make([][]byte, n)
+	text := make([]string, n)
+	for i, g := range gs {
+		kept[i] = wkt.Marshal(g) // not copied
+		text[i] = string(kept[i])
+		if ms := wkt.MarshalString(g); ms != text[i] {
+			return fmt.Errorf("geometry %d: Marshal and MarshalString differ: %q vs %q", i, clip(text[i]), clip(ms))
+		}
+	}
+	for i := range gs {
+		if string(kept[i]) != text[i] {
+			return fmt.Errorf("bytes returned by Marshal for geometry %d changed during later Marshal calls: were %q, now %q", i, clip(text[i]), clip(string(kept[i])))
+		}
+	}
+	parsed := make([]orb.Geometry, n)
+	typedV := make([]orb.Geometry, n)
+	for i := range gs {
+		var err error
+		if parsed[i], err = wkt.Unmarshal(text[i]); err != nil {
+			return fmt.Errorf("geometry %d: Unmarshal(%q) failed: %v", i, clip(text[i]), err)
+		}
+		if typedV[i], err = typed(keywordOf(want[i]), respell(text[i], nil, 1, nil, 1)); err != nil {
+			return fmt.Errorf("geometry %d: typed parser rejects its own kind: %v", i, err)
+		}
+		// right at return time both must be the marshalled value (what follows checks that they stay so)
+		if ok, why := gen.SameBits(parsed[i], want[i]); !ok {
+			return fmt.Errorf("geometry %d: Unmarshal(%q) differs from the marshalled value: %s", i, clip(text[i]), why)
+		}
+		if ok, why := gen.SameBits(typedV[i], want[i]); !ok {
+			return fmt.Errorf("geometry %d: typed parse of %q differs from the marshalled value: %s", i, clip(text[i]), why)
+		}
+	}
+	// churn: more calls of every kind, in the order of the script
+	for _, k := range c.Order {
+		j := ((k % n) + n) % n
+		_ = wkt.Marshal(gs[j])
+		_ = wkt.MarshalString(gs[j])
+		if _, err := wkt.Unmarshal(text[j]); err != nil {
+			return fmt.Errorf("geometry %d: second Unmarshal(%q) failed: %v", j, clip(text[j]), err)
+		}
+	}
+	for i := range gs {
+		if string(kept[i]) != text[i] {
+			return fmt.Errorf("bytes returned by Marshal for geometry %d changed during later calls: were %q, now %q", i, clip(text[i]), clip(string(kept[i])))
+		}
+		if ok, why := gen.SameBits(parsed[i], want[i]); !ok {
+			return fmt.Errorf("geometry returned by Unmarshal for geometry %d (%q) is no longer the marshalled value after later calls: %s", i, clip(text[i]), why)
+		}
+		if ok, why := gen.SameBits(typedV[i], want[i]); !ok {
+			return fmt.Errorf("geometry returned by the typed parser for geometry %d (%q) is no longer the marshalled value after later calls: %s", i, clip(text[i]), why)
+		}
+		if ok, why := gen.SameBits(gs[i], c.Seq[i].V); !ok {
+			return fmt.Errorf("argument %d of Marshal was modified: %s", i, why)
+		}
+	}
+	// the other direction: the caller overwrites what it was given
+	for i := range gs {
+		for k := range kept[i] {
+			kept[i][k] = '#'
+		}
+		scribble(parsed[i])
+		scribble(typedV[i])
+	}
+	for i := range gs {
+		if ms := wkt.MarshalString(gs[i]); ms != text[i] {
+			return fmt.Errorf("after the caller overwrote the returned bytes and geometries, MarshalString of geometry %d gives %q, was %q", i, clip(ms), clip(text[i]))
+		}
+		if b := wkt.Marshal(gs[i]); string(b) != text[i] {
+			return fmt.Errorf("after the caller overwrote the returned bytes and geometries, Marshal of geometry %d gives %q, was %q", i, clip(string(b)), clip(text[i]))
+		}
+		got, err := wkt.Unmarshal(text[i])
+		if err != nil {
+			return fmt.Errorf("after the caller overwrote the returned values, Unmarshal(%q) failed: %v", clip(text[i]), err)
+		}
+		if ok, why := gen.SameBits(got, want[i]); !ok {
+			return fmt.Errorf("after the caller overwrote the returned values, Unmarshal(%q) differs: %s", clip(text[i]), why)
+		}
+	}
+	return nil
 }
 
 // ---------------------------------------------------------------- known finding: empty ring
@@ -701,9 +880,16 @@ func classify(c Case, test string) {
 	_, isColl := g.(orb.Collection)
 	depth := gen.Depth(g)
 	if isColl {
-		if depth > 4 {
-			stats.Class("collection depth:>4")
-		} else {
+		switch {
+		case depth > 64:
+			stats.Class("collection depth:>64")
+		case depth > 32:
+			stats.Class("collection depth:33..64")
+		case depth > 16:
+			stats.Class("collection depth:17..32")
+		case depth > 4:
+			stats.Class("collection depth:5..16")
+		default:
 			stats.Class(fmt.Sprintf("collection depth:%d", depth))
 		}
 		seen := map[string]bool{}
@@ -780,7 +966,7 @@ func TestPropRoundTrip(t *testing.T) {
 	small := gen.Geom(baseOpts(3, 5))
 	long := gen.Geom(baseOpts(1, 60))
 	wideG := wide()
-	stats.Check(t, 100000, 3000000, func(rt *rapid.T) {
+	stats.Check(t, 80000, 3000000, func(rt *rapid.T) {
 		var c Case
 		switch sz := rapid.IntRange(0, 39).Draw(rt, "size"); {
 		case sz == 0:
@@ -805,7 +991,7 @@ func TestPropRoundTrip(t *testing.T) {
 func TestPropCollection(t *testing.T) {
 	assumptions()
 	member := gen.Geom(baseOpts(2, 4))
-	stats.Check(t, 60000, 1500000, func(rt *rapid.T) {
+	stats.Check(t, 50000, 1500000, func(rt *rapid.T) {
 		var c Case
 		n := rapid.IntRange(1, 4).Draw(rt, "members")
 		col := make(orb.Collection, n)
@@ -823,6 +1009,23 @@ func TestPropCollection(t *testing.T) {
 				col = orb.Collection{member.Draw(rt, "before"), col}
 			}
 		}
+		// depth class: 5..64 further levels (one in ten cases), with one sibling pattern for all levels
+		if rapid.IntRange(0, 9).Draw(rt, "deep") == 0 {
+			levels := rapid.IntRange(5, 64).Draw(rt, "levels")
+			pattern := rapid.IntRange(0, 3).Draw(rt, "pattern")
+			for i := 1; i <= levels; i++ {
+				switch {
+				case pattern == 1:
+					col = orb.Collection{orb.LineString{}, col}
+				case pattern == 2 && i%2 == 1, pattern == 3 && i%5 == 0:
+					col = orb.Collection{col, orb.Point{float64(i), 1e-5}}
+				case pattern == 2:
+					col = orb.Collection{orb.MultiPolygon{}, col}
+				default:
+					col = orb.Collection{col}
+				}
+			}
+		}
 		c.G.V = col
 		finish(rt, &c)
 		drawScripts(rt, &c)
@@ -831,7 +1034,87 @@ func TestPropCollection(t *testing.T) {
 	})
 }
 
+// TestPropRetained: sequences of 2..4 geometries; everything orb returns is
+// retained uncopied across the later calls (see checkSeq).
+func TestPropRetained(t *testing.T) {
+	assumptions()
+	small := gen.Geom(baseOpts(2, 4))
+	stats.Check(t, 30000, 800000, func(rt *rapid.T) {
+		var c Case
+		n := rapid.IntRange(2, 4).Draw(rt, "n")
+		same := rapid.IntRange(0, 4).Draw(rt, "same kind") == 0
+		var first orb.Geometry
+		for i := 0; i < n; i++ {
+			g := small.Draw(rt, "g")
+			if emptyRingBroken {
+				var ch bool
+				if g, ch = dropEmptyRings(g); ch {
+					stats.Excluded(emptyRingKey)
+				}
+			}
+			if i == 0 {
+				first = g
+			} else if same && gen.KindOf(g) != gen.KindOf(first) {
+				// same kind and similar size as the first: a reused buffer of equal length is the hard case
+				g = gen.DeepCopy(first)
+				k := 0
+				gen.Walk(g, func(p *float64) {
+					k++
+					if k%2 == i%2 {
+						*p = float64(i*100 + k)
+					}
+				})
+			}
+			c.Seq = append(c.Seq, gen.G{V: g})
+		}
+		c.Order = rapid.SliceOfN(rapid.IntRange(0, 3), 0, 6).Draw(rt, "order")
+		stats.Class(fmt.Sprintf("sequence length:%d", n))
+		if same {
+			stats.Class("sequence:later geometries share the kind and shape of the first")
+		}
+		stats.NonTrivial(gen.JSON(c))
+		if stats.WantSample("retained sequence") {
+			stats.Sample("retained sequence", c)
+		}
+		stats.Try(rt, "TestPropRetained", c, func() error { return checkCase(c) })
+	})
+}
+
 // ---------------------------------------------------------------- enumerations
+
+// TestEnumDepth: "collections nested to any depth". Every nesting depth
+// 1..200 (thorough: 1..1000) around each of eight leaf kinds, as a single chain,
+// with LINESTRING EMPTY before the nested member at every level, and with
+// alternating siblings; each through the whole oracle (Unmarshal, the seven
+// typed functions, the two fixed re-spellings). Parsing re-scans the text at
+// every level, so one case costs O(depth^2): measured ~0.3 ms at depth 64,
+// ~3 ms at 200, ~70 ms at 1000.
+func TestEnumDepth(t *testing.T) {
+	maxD := 200
+	if stats.Thorough() {
+		maxD = 1000
+	}
+	var idx int64
+	for d := 1; d <= maxD; d++ {
+		k := 0
+		for _, leaf := range nestLeaves {
+			for _, sib := range nestSiblings {
+				k++
+				// above 200 (thorough tier) every depth is still run, with 3 of the 24 leaf x sibling
+				// combinations, rotating so that any 8 consecutive depths cover all 24
+				if d > 200 && (k+d)%8 != 0 {
+					continue
+				}
+				enumCase(t, "TestEnumDepth", &idx, Case{Nest: &Nest{Depth: d, Leaf: leaf, Sibling: sib}})
+			}
+		}
+	}
+	name := "collection nesting depth 1..200 x 8 leaf kinds (point, line, polygon with hole, multi-point, multi-line, multi-polygon, EMPTY value, two-member collection) x {single chain, EMPTY sibling before at every level, alternating siblings}"
+	if maxD > 200 {
+		name += fmt.Sprintf("; every depth 201..%d with 3 of the 24 combinations (all 24 within any 8 consecutive depths)", maxD)
+	}
+	stats.Subspace(name, idx, true)
+}
 
 var ring4 = orb.Ring{{0, 0}, {3, 0}, {3, 3}, {0, 0}}
 var ring3 = orb.Ring{{1, 1}, {2, 1}, {1, 1}}
